@@ -124,11 +124,13 @@ def run (nodes : List Node) (s : State) : List Label → Except String (State ×
 
 /-! ### concrete nodes: field lists and affine stage functions (what the harness generates) -/
 
-/-- generated field `field := (const + Σ coefs[j] * required[j]) mod 2^width` -/
+/-- generated field `field := (const + Σ coefs[j] * required[j]) mod 2^width`; `width = some w` when the
+    stage (re)defines the field with its own shape, `none`: the field's base width -/
 structure GenSpec where
   field : Nat
   const : Nat
   coefs : List Nat
+  width : Option Nat
 deriving Repr, DecidableEq
 
 /-- description of a node as given to the builder -/
@@ -164,7 +166,7 @@ def proj (fields : List Nat) (r : Rec) : Rec := fields.filterMap fun k => (looku
 def sortFields (l : List Nat) : List Nat := (l.toArray.qsort (· < ·)).toList
 
 def evalGen (widths : List Nat) (reqVals : Rec) (g : GenSpec) : Option (Nat × Nat) :=
-  match widths[g.field]? with
+  match (match g.width with | some w => some w | none => widths[g.field]?) with
   | none => none
   | some w =>
     let s := (List.zip g.coefs (reqVals.map (·.2))).foldl (fun acc p => acc + p.1 * p.2) g.const
